@@ -192,6 +192,10 @@ func findGoFiles(cwd, path string) (_ []sourcePath, err error) {
 }
 
 func findFiles(cwd string, patterns []string) (_ []sourcePath, err error) {
+	// Files by the path that is left when all symbolic links in the
+	// directories above them are resolved: a file that is reached through
+	// two spellings ("a.go" and "../link-to-this-directory/a.go") is one
+	// file. The first spelling is the one that is reported.
 	files := make(map[string]sourcePath)
 
 	for _, pat := range patterns {
@@ -202,17 +206,26 @@ func findFiles(cwd string, patterns []string) (_ []sourcePath, err error) {
 		}
 
 		for _, f := range fs {
-			files[f.Absolute] = f
+			real := f.Absolute
+			if resolved, err := filepath.EvalSymlinks(f.Absolute); err == nil {
+				real = resolved
+			}
+			if _, ok := files[real]; !ok {
+				files[real] = f
+			}
 		}
 	}
 
-	sortedPaths := make([]sourcePath, 0, len(files))
-	for _, p := range files {
-		sortedPaths = append(sortedPaths, p)
+	realPaths := make([]string, 0, len(files))
+	for real := range files {
+		realPaths = append(realPaths, real)
 	}
-	sort.Slice(sortedPaths, func(i, j int) bool {
-		return sortedPaths[i].Absolute < sortedPaths[j].Absolute
-	})
+	sort.Strings(realPaths)
+
+	sortedPaths := make([]sourcePath, 0, len(files))
+	for _, real := range realPaths {
+		sortedPaths = append(sortedPaths, files[real])
+	}
 
 	return sortedPaths, err
 }
